@@ -299,7 +299,8 @@ def search(mod, tier, seed_value, ncases, time_budget, ctx, known_names):
         test()
     except Violation:
         plan, v = st["fail"]
-        violation = {"plan": enc(plan), "what": v.what, "detail": {k: short(x, 1500) for k, x in v.detail.items()}}
+        violation = {"plan": enc(plan), "what": v.what, "detail": {k: short(x, 1500) for k, x in v.detail.items()},
+                     "hashseed": int(os.environ.get("PYTHONHASHSEED", "0") or 0)}
     except Exception:
         if st["harness"] is None:
             st["harness"] = traceback.format_exc()
@@ -337,7 +338,7 @@ def run_replays(mod, pid, ctx, known):
         plan = dec(doc["plan"])
         n += 1
         kf = known_by_witness.get(rel)
-        if doc.get("isolate"):
+        if doc.get("isolate") or str(doc.get("hashseed", 0)) != os.environ.get("PYTHONHASHSEED", "0"):
             # a plan that used to crash the interpreter is replayed in its own process
             r = subprocess.run([sys.executable, os.path.join(ROOT, "check"), pid, "--replay", rel, "--no-known"],
                                capture_output=True, text=True)
@@ -369,8 +370,10 @@ def save_found(pid, viol):
     path = os.path.join(d, f"{pid}-{h}.json")
     with open(path, "w") as f:
         # no sort_keys: the insertion order of dict keys inside a plan can matter (items of lists of dicts)
-        json.dump({"property": pid, "plan": viol["plan"], "what": viol["what"],
-                   "detail": viol["detail"]}, f, indent=1)
+        doc = {"property": pid, "plan": viol["plan"], "what": viol["what"], "detail": viol["detail"]}
+        if viol.get("hashseed"):
+            doc["hashseed"] = viol["hashseed"]          # found by a shard running under this PYTHONHASHSEED
+        json.dump(doc, f, indent=1)
         f.write("\n")
     return path
 
@@ -511,7 +514,13 @@ def _main(args, pid, seed_base, t0, work):
     if args.replay:
         path = args.replay if os.path.isabs(args.replay) else os.path.join(ROOT, args.replay)
         with open(path) as f:
-            plan = dec(json.load(f)["plan"])
+            doc = json.load(f)
+        hs = str(doc.get("hashseed", 0))
+        if hs != os.environ.get("PYTHONHASHSEED", "0"):
+            # the plan was found under another (fixed) hash seed: replay it in an interpreter started with that one
+            r = subprocess.run([sys.executable, os.path.join(ROOT, "check")] + sys.argv[1:], env=dict(os.environ, VERIF_HASHSEED=hs))
+            return r.returncode
+        plan = dec(doc["plan"])
         try:
             run_plan(mod, plan, ctx, [])
         except Violation as v:
@@ -563,7 +572,9 @@ def _main(args, pid, seed_base, t0, work):
         if args.no_known:
             cmd.append("--no-known")
         log = open(os.path.join(work, f"shard{k}.log"), "w")
-        env = dict(os.environ, VERIF_TRACE_PLAN=trace)
+        # each shard runs under its own fixed hash seed (0, 1, 2, ...): iteration order of sets of strings differs
+        # between them, so a result that depends on it shows in at least one; the seed is stored with a found replay
+        env = dict(os.environ, VERIF_TRACE_PLAN=trace, VERIF_HASHSEED=str(k))
         procs.append((k, out, trace, log, subprocess.Popen(cmd, stdout=log, stderr=subprocess.STDOUT, env=env)))
     # coverage-guided leg (thorough tier, modules that declare FUZZ_RUNS): atheris drives the same strategy + check
     fuzz = []
